@@ -388,6 +388,9 @@ func RunMode(prefix []int, maxSteps int, wantTrace bool, delay bool, main func()
 		step++
 	}
 	s.Steps = step
+	if step < len(prefix) && !s.WasCut && len(s.Fatal) == 0 {
+		s.Fatal = append(s.Fatal, fmt.Sprintf("replay divergence: execution ended after %d steps but the recorded prefix has %d choices (scenario not deterministic)", step, len(prefix)))
+	}
 	// stop the remaining threads one at a time and join them (deferred library code may run shim calls)
 	s.aborting = true
 	for _, t := range s.threads {
